@@ -597,3 +597,29 @@ Proof.
     split; [split; [vm_compute; discriminate|reflexivity]|]. split; [reflexivity|]. split; [reflexivity|].
     exists (Json false). right. split; [vm_compute; right; left; reflexivity|reflexivity].
 Qed.
+
+(* ------------------------------------------------------------------ --help-markdown included (since the fix of F-C20e the manual
+   is written like a report: its io error takes main()'s ordinary route) *)
+Lemma failure_has_diag_all : forall f e, diag_if_failed (run f e).
+Proof.
+  intros f e. destruct (f_help_md f) eqn:Hh; [|exact (failure_has_diag f e Hh)].
+  rewrite run_shape.
+  destruct (total f) as [[r Hr]|[[Hm Hm']|[p [Hp Hp']]]]; [| |congruence].
+  - rewrite Hr. destruct r; [unfold diag_if_failed; reflexivity| |];
+      apply do_creates_diag; unfold diag_if_failed; reflexivity.
+  - rewrite Hm. apply do_creates_diag. apply do_writes_diag.
+Qed.
+Lemma io_error_status_all : forall f e w r,
+  In (WriteFailed w r) (fst (run f e)) ->
+  (e_write e w r = IoBrokenPipe /\ snd (run f e) = 0) \/
+  (e_write e w r = IoErr /\ snd (run f e) = 1 /\ In (Diag Stderr) (fst (run f e))).
+Proof.
+  intros f e w r Hin. destruct (f_help_md f) eqn:Hh; [|exact (io_error_status f e w r Hh Hin)].
+  rewrite run_shape in *.
+  destruct (total f) as [[rj Hr]|[[Hm Hm']|[p [Hp Hp']]]]; [| |congruence].
+  - rewrite Hr in *. destruct rj; [destruct Hin as [H|[]]; discriminate H| |];
+      (apply in_do_creates in Hin; [|reflexivity]; destruct Hin as [[H|[]] _]; discriminate H).
+  - rewrite Hm in *. apply in_do_creates in Hin; [|reflexivity]. destruct Hin as [Hin E1]. rewrite E1. cbn [fst snd].
+    destruct (write_error_status _ _ _ _ Hin) as [[A B]|[A [B C]]]; [left; auto|right].
+    repeat split; auto. apply in_or_app; right. exact C.
+Qed.
